@@ -178,7 +178,8 @@ Construct ==
          (* the object's primitive matrix is used (from the file, or handed in again) *)
          objPmat == fromYaml \/ args.pmatArg
          broken == objPmat /\ obj.cell.fragile /\ obj.np.tol = "loose" /\ tolEff = "default"
-         built == Order(obj, args.np.snf)
+         (* the two constructions differ only for the object's (sensitive) supercell matrix *)
+         built == IF Smat(obj, smat) = "obj" THEN Order(obj, args.np.snf) ELSE "same"
          orderEff == IF fromYaml /\ ~PinnedLoad THEN rd.order ELSE built
      IN /\ pc' = (IF misread \/ broken THEN "done" ELSE "nac")
         /\ ld' = [ld EXCEPT !.status = IF misread \/ broken THEN "raised" ELSE "ok",
